@@ -132,6 +132,26 @@ def check_single(ctx, spec, batch, key, temps=None, want=L.WHICH, oracle=True):
         orc = L.oracle_for(spec, obj, T, want)
         batch.append(({'op': 'c05.eval', 'cor': L.jspec(spec, orc), 'T': L.J(T), 'want': list(want)},
                       {'mk': 'ok', 'range': L.impl_range(obj), 'outs': outs}, dict(inp0, T=T), spec))
+    if oracle and has_cp and lo is not None:
+        array_outside(ctx, obj, spec, lo, hi, inp0)
+
+
+def array_outside(ctx, obj, spec, lo, hi, inp0):
+    """temperatures passed as an array are range-checked like scalars: one element outside the range => error, never values"""
+    import numpy as np
+    import warnings
+    inside = (lo + hi) / 2.0
+    for name, arr in (('above', [inside, L.nexta(hi, True)]), ('below', [L.nexta(lo, False), inside]),
+                      ('far', [inside, hi + 500.0]), ('nonpositive', [0.0, inside])):
+        ctx.count('array_outside_' + name)
+        try:
+            with warnings.catch_warnings():
+                warnings.simplefilter('ignore')
+                got = obj.get_CpoR(np.array(arr, dtype=float))
+        except Exception:
+            continue
+        ctx.violation('Cp/R is returned for an array of temperatures one of which lies outside the valid range',
+                      dict(inp0, temperatures=arr), expected='error', observed=[float(x) for x in np.asarray(got).ravel()])
 
 
 def gen_spec(rng, kind=None, n=None, rkind=None, tref_mode=None):
@@ -345,7 +365,9 @@ def range_fold(ctx, batch, n):
     """the intersection fold alone, on many range lists, through estimates of constituents without Cp data"""
     rng = ctx.rng
     pool = [None, [298.0, 1000.0], [300.0, 1500.0], [250.0, 300.0], [300.0, 300.0], [100.0, 250.0], [298.15, 298.15],
-            [1e-3, 1e6], [299.99999999999994, 300.00000000000006]]
+            [1e-3, 1e6], [299.99999999999994, 300.00000000000006],
+            # lower bounds at and below 0 K: a falsy bound must still take part in the intersection
+            [0.0, 500.0], [0.0, 1000.0], [0.0, 0.0], [-10.0, 400.0]]
     for i in range(n):
         k = rng.randint(1, 7)
         rs = [rng.choice(pool) if rng.random() < 0.7 else sorted([float(rng.randint(1, 40) * 25), float(rng.randint(1, 40) * 25)])
